@@ -6,7 +6,14 @@ import importlib
 ROOT = os.path.dirname(os.path.dirname(os.path.abspath(__file__)))
 
 
+def enabled():
+    p = os.path.join(ROOT, "vlib", "enabled.txt")
+    return {l.strip() for l in open(p) if l.strip() and not l.startswith("#")}
+
+
 def registration(pid):
+    if pid not in enabled():
+        return None
     path = os.path.join(ROOT, "vlib", "checks", pid.lower() + ".py")
     if not os.path.exists(path):
         return None
